@@ -148,6 +148,7 @@ def _havoc(it, fr, spec, body_stmts, target):
                 obj, field = loc
                 obj.f[field] = fresh_like(cx, obj.f[field], field)
                 havocked.add(("field", id(obj), field))
+                cx.ghost.setdefault("havocked_fields", {})[(id(obj), field)] = obj.f[field]
             elif hasattr(loc, "_havoc"):
                 loc._havoc(cx)
                 havocked.add(("obj", id(loc), None))
